@@ -198,7 +198,7 @@ func txSig() {
 			}
 			return t2, false
 		}
-		o := sigOut{I: i, How: how}
+		o := sigOut{I: i, How: how, Expected: []string{}}
 		t1, wire := mk()
 		o.Wire = wire
 		var code ontErrors.ErrCode
